@@ -478,6 +478,10 @@ pub fn names(tr: &mut Tr, rng: &mut SmallRng) -> u64 {
                 if paren && pk == "none" {
                     continue;
                 }
+                // parameters that do not fit: just above usize::MAX (2^64 .. 2^64 + 3), twice that, 2^128, twenty nines
+                let overflows = ["18446744073709551616", "18446744073709551617", "18446744073709551619", "36893488147419103232", "340282366920938463463374607431768211456", "99999999999999999999"];
+                let reps = if pk == "overflow" { overflows.len() } else { 1 };
+                for rep in 0..reps {
                 for (trailing, close) in [(false, true), (true, true), (false, false), (true, false)] {
                     if !paren && !close {
                         continue;
@@ -488,7 +492,7 @@ pub fn names(tr: &mut Tr, rng: &mut SmallRng) -> u64 {
                         "nat" => pv.to_string(),
                         "neg" => format!("-{}", pv + 1),
                         "alpha" => ["x", "3x", "k=3", "0x10", " 5"][rng.random_range(0..5)].to_string(),
-                        "overflow" => "340282366920938463463374607431768211456".to_string(),
+                        "overflow" => overflows[rep].to_string(),
                         _ => String::new(),
                     };
                     let mut text = name.to_string();
@@ -509,6 +513,7 @@ pub fn names(tr: &mut Tr, rng: &mut SmallRng) -> u64 {
                     }
                     tr.emit(e);
                     tests += 1;
+                }
                 }
             }
         }
